@@ -180,15 +180,15 @@ def replay_exported(run, scens, n_sample, seed, estimators=ESTIMATORS, pack_size
     return len(scens)
 
 
-def random_traces(run, n_runs, seed, units=(4, 12), pack_size=6, allow_mismatch=True, estimators=ESTIMATORS, outliers=False):
+def random_traces(run, n_runs, seed, units=(4, 12), pack_size=6, allow_mismatch=True, estimators=ESTIMATORS, outliers=False, policies=None, p_weird=0.45):
     rnd = random.Random(seed)
     jobs = []
     for n in range(n_runs):
-        policy = rnd.choice(["drop", "zero"])
+        policy = policies[n % len(policies)] if policies else rnd.choice(["drop", "zero"])
         off = rnd.random() < 0.35
         levels = rnd.choice(ledger.LEVEL_LISTS)
         pack = [
-            ledger.random_scenario(rnd, rnd.randint(*units), policy, off, levels, allow_mismatch=allow_mismatch)
+            ledger.random_scenario(rnd, rnd.randint(*units), policy, off, levels, allow_mismatch=allow_mismatch, p_weird=p_weird)
             for _ in range(pack_size)
         ]
         kw = {}
@@ -263,7 +263,8 @@ def c01(tier, seed):
     replay_exported(run, scens, 1400 if tier == "quick" else 12000, seed)
     traces = random_traces(run, 36 if tier == "quick" else 400, seed + 7, allow_mismatch=False)
     # a small separate batch contains units whose feed row names another state than their baseline row (F8 class)
-    traces += random_traces(run, 3 if tier == "quick" else 12, seed + 9, pack_size=4, allow_mismatch=True)
+    # (both policies, every estimator: under 'drop' such a feed row must be passed through as an unexpected unit)
+    traces += random_traces(run, 6 if tier == "quick" else 24, seed + 9, pack_size=4, allow_mismatch=True, policies=["drop", "zero"])
     for t in traces:
         kinds = {u["kind"] for u in t["sc"]["units"]}
         if kinds & {"unexpRep", "unexpNon"}:
@@ -357,9 +358,30 @@ def c03(tier, seed):
             run.witness("fully_reporting_run")
         else:
             run.violation("run_raised", {k: val[k] for k in ("clause", "estimator", "policy", "exc")}, val)
+    # large scenarios (one per run): counties with enough calibration units for their own gaussian model next to
+    # counties that fall back to their state, and outstanding units whose partial counts are large, so that the
+    # group-level floor of the gaussian estimator is active on rows whose model order differs from the group order
+    big_jobs = []
+    for k in range(4 if tier == "quick" else 24):
+        sc = ledger.random_scenario(rnd, 170, rnd.choice(["drop", "zero"]), False, ["postal_code", "county_fips"], p_weird=0.25)
+        for i, u in enumerate(sc["units"]):
+            if u["inBase"]:
+                big = rnd.random() < 0.75
+                u["county"] = u["idCounty"] = ("c2" if big else rnd.choice(["c1", "c3"]))
+                u["bstate"] = u["fstate"] = "S1" if rnd.random() < 0.8 else "S2"
+        big_jobs.append(([sc], "gaussian", seed + 90 + k, {}))
+    for (status, val), job in zip(common.pool().map(_job_trace, big_jobs, chunksize=1), big_jobs):
+        if status == "ok":
+            full.extend(val)
+            run.witness("large_gaussian_scenario")
+            for r in val[0]["obs"]["tables"].get("county_fips", []):
+                if r["lower"] and r["lower"][0] == r["counted"] and r["pred"] > r["counted"]:
+                    run.witness("gaussian_group_floor_active")
+        else:
+            run.violation("run_raised", {k: val[k] for k in ("clause", "estimator", "policy", "exc")}, val)
     validate_ledger_traces(run, traces + full, "Trace_Ledger_C03.cfg")
     run.finish(
-        require_witnesses=["unit_prediction_at_floor", "unit_lower_bound_at_floor", "unit_interval_nondegenerate", "fully_reporting_run"]
+        require_witnesses=["unit_prediction_at_floor", "unit_lower_bound_at_floor", "unit_interval_nondegenerate", "fully_reporting_run", "large_gaussian_scenario"]
     )
 
 
@@ -614,6 +636,15 @@ def c10(tier, seed):
         levels = rnd.choice(ledger.LEVEL_LISTS)
         pack0 = [ledger.random_scenario(rnd, rnd.randint(4, 10), policy, off, levels, p_weird=0.6) for _ in range(5)]
         jobs.append((pack0, ESTIMATORS[n % 3], seed + n))
+    # large gaussian scenarios: counties with their own calibration model next to counties that fall back, so that a
+    # group-level floor taken from another group's partial counts would show
+    for k in range(4 if tier == "quick" else 20):
+        sc = ledger.random_scenario(rnd, 170, rnd.choice(["drop", "zero"]), False, ["postal_code", "county_fips"], p_weird=0.3)
+        for u in sc["units"]:
+            if u["inBase"]:
+                u["county"] = u["idCounty"] = ("c2" if rnd.random() < 0.75 else rnd.choice(["c1", "c3"]))
+                u["bstate"] = u["fstate"] = "S1" if rnd.random() < 0.8 else "S2"
+        jobs.append(([sc], "gaussian", seed + 500 + 2 * k))
     traces = []
     for status, val in common.pool().map(_job_perturb, jobs, chunksize=1):
         if status == "ok":
